@@ -18,6 +18,15 @@ WITNESS = ("root", "list", 0, (
 PRIORITY = ["root", "p1", "p2", "p3", "x", "a", "b"]
 
 
+# twins whose first copy returns a nested call needing the same resource, queued behind a holder
+LEAF = ("leaf", "leaf", 1, (), {"limits": {"r0": 1}})
+MID = ("mid", "list", 1, (LEAF,), {"limits": {"r0": 1}})
+WITNESS2 = ("root", "list", 0, (("blocker", "leaf", 0, (), {"limits": {"r0": 1}}),
+                                ("wa", "list", 1, (MID,), None), ("wb", "list", 2, (MID,), None)), None)
+PRIORITIES2 = [["root", "wa", "wb", "blocker", "mid", "leaf"], ["root", "wb", "wa", "blocker", "mid", "leaf"],
+               ["root", "wa", "wb", "blocker", "leaf", "mid"]]
+
+
 def feasible(spec, limits):
     opts = spec[4] if len(spec) > 4 and spec[4] else {}
     lim = opts.get("limits") or {}
@@ -66,7 +75,17 @@ class Check(PropertyCheck):
         out = sched.run_program(lambda: vm.call(WITNESS), {"r0": 1, "r1": 1}, random.Random(self.seed),
                                 complete_prob=0.0, priority=PRIORITY)
         out["limits"], out["spec"] = {"r0": 1, "r1": 1}, WITNESS
-        runs = [("witness", out)] + [("random", o) for o in getattr(self, "runs", [])]
+        runs = [("witness", out)]
+        for pr in PRIORITIES2:
+            o2 = sched.run_program(lambda: vm.call(WITNESS2), {"r0": 1, "r1": 1}, random.Random(self.seed),
+                                   complete_prob=0.0, priority=pr)
+            o2["limits"], o2["spec"] = {"r0": 1, "r1": 1}, WITNESS2
+            runs.append(("witness2", o2))
+        for sd in range(6):
+            o2 = sched.run_program(lambda: vm.call(WITNESS2), {"r0": 1, "r1": 1}, random.Random(self.seed * 100 + sd))
+            o2["limits"], o2["spec"] = {"r0": 1, "r1": 1}, WITNESS2
+            runs.append(("witness2-random", o2))
+        runs += [("random", o) for o in getattr(self, "runs", [])]
         nd = 0
         for kind, o in runs:
             self.evaluations += 1
